@@ -22,27 +22,51 @@ def sh(cmd, cwd=None, timeout=3600):
 
 
 # properties anchored in functions that the source-to-Lean translators cover
-MOD_FUNCS = {
-    "C01": ["ac_generate_ac", "mac_mac3", "mac_pad1", "mac_pad2"],
-    "C02": ["ac_generate_arpc_1", "ac_generate_arpc_2", "tools_xor", "tools_cbc", "mac_mac3", "mac_pad2"],
-    "C03": ["kd_derive_icc_mk_a", "kd_derive_icc_mk_b", "tools_xor", "tools_ecb", "tools_adjust"],
-    "C04": ["kd_derive_common_sk", "kd_derive_visa_sm_sk", "tools_xor", "tools_ecb", "tools_adjust"],
-    "C05": ["kd_tree_sk", "kd_tree_walk", "kd_tree_derive", "tools_xor", "tools_ecb", "tools_adjust"],
-    "C06": ["sm_generate_command_mac", "mac_mac3", "mac_pad2"],
-    "C07": ["sm_encrypt_command_data", "mac_pad2", "tools_ecb", "tools_cbc"],
-    "C08": ["ac_generate_ac", "ac_generate_arpc_1", "ac_generate_arpc_2", "kd_derive_icc_mk_a", "kd_derive_icc_mk_b",
-            "kd_derive_common_sk", "kd_derive_visa_sm_sk", "sm_generate_command_mac", "sm_encrypt_command_data",
-            "sm_format_vis", "sm_format_iso2", "mac_mac3"],
-    "C11": ["cvv_generate_cvc3", "mac_mac3", "tools_ecb"],
-    "C12": ["sm_format_vis", "sm_format_iso2", "tools_xor"],
-    "C13": ["tools_adjust", "tools_odd_parity", "kd_derive_icc_mk_a", "kd_derive_icc_mk_b", "kd_derive_common_sk",
-            "kd_derive_visa_sm_sk", "kd_tree_sk"],
-    "C15": ["kd_tree_sk", "ac_generate_ac", "ac_generate_arpc_1", "ac_generate_arpc_2", "kd_derive_common_sk", "kd_derive_visa_sm_sk",
-            "sm_generate_command_mac", "sm_encrypt_command_data", "sm_format_vis", "sm_format_iso2", "cvv_generate_cvc3",
-            "mac_mac3"],
+# direct callees among the translated functions (names of the refinement theorems in lean/PyemvGen/ModRefines.lean)
+DEPS = {
+    "mac_mac3": ["mac_pad1", "mac_pad2"],
+    "ac_generate_ac": ["mac_mac3"], "ac_generate_arpc_1": ["tools_xor", "tools_cbc"], "ac_generate_arpc_2": ["mac_mac3"],
+    "kd_derive_icc_mk_a": ["tools_xor", "tools_ecb", "tools_adjust"], "kd_derive_icc_mk_b": ["kd_derive_icc_mk_a", "tools_xor", "tools_ecb", "tools_adjust"],
+    "kd_derive_common_sk": ["tools_ecb", "tools_adjust"], "kd_derive_visa_sm_sk": ["tools_xor", "tools_adjust"],
+    "kd_tree_sk": ["kd_tree_walk", "kd_tree_derive", "tools_xor", "tools_adjust"], "kd_tree_walk": ["kd_tree_derive"], "kd_tree_derive": ["tools_xor", "tools_ecb"],
+    "sm_generate_command_mac": ["mac_mac3"], "sm_encrypt_command_data": ["mac_pad2", "tools_ecb", "tools_cbc"], "sm_format_vis": ["tools_xor"],
+    "cvv_generate_cvc3": ["mac_mac3", "tools_ecb"], "tools_adjust": ["tools_odd_parity"],
+}
+ALL_MOD = ["ac_generate_ac", "ac_generate_arpc_1", "ac_generate_arpc_2", "kd_derive_icc_mk_a", "kd_derive_icc_mk_b", "kd_derive_common_sk",
+           "kd_derive_visa_sm_sk", "kd_tree_sk", "sm_generate_command_mac", "sm_encrypt_command_data", "sm_format_vis", "sm_format_iso2",
+           "cvv_generate_cvc3", "mac_mac3", "tools_kcv"]
+
+
+def _closure(names):
+    out = []
+    todo = list(names)
+    while todo:
+        n = todo.pop(0)
+        if n not in out:
+            out.append(n)
+            todo += DEPS.get(n, [])
+    return out
+
+
+# properties anchored in functions that the source-to-Lean translators cover: the anchored functions and everything
+# they call (a change in a callee changes what the anchored function computes)
+MOD_FUNCS = {pid: _closure(v) for pid, v in {
+    "C01": ["ac_generate_ac"],
+    "C02": ["ac_generate_arpc_1", "ac_generate_arpc_2"],
+    "C03": ["kd_derive_icc_mk_a", "kd_derive_icc_mk_b"],
+    "C04": ["kd_derive_common_sk", "kd_derive_visa_sm_sk"],
+    "C05": ["kd_tree_sk"],
+    "C06": ["sm_generate_command_mac"],
+    "C07": ["sm_encrypt_command_data"],
+    "C08": [n for n in ALL_MOD if n not in ("cvv_generate_cvc3", "kd_tree_sk", "tools_kcv")],
+    "C11": ["cvv_generate_cvc3"],
+    "C12": ["sm_format_vis", "sm_format_iso2"],
+    "C13": ["tools_adjust", "kd_derive_icc_mk_a", "kd_derive_icc_mk_b", "kd_derive_common_sk", "kd_derive_visa_sm_sk", "kd_tree_sk"],
+    "C14": ALL_MOD,
+    "C15": [n for n in ALL_MOD if n != "tools_kcv"],
     "C16": ["kd_derive_icc_mk_a", "kd_derive_icc_mk_b", "sm_format_vis", "sm_format_iso2"],
     "C19": ["mac_pad1", "mac_pad2", "tools_xor", "tools_odd_parity", "tools_kcv", "tools_cbc", "tools_ecb"],
-}
+}.items()}
 
 
 # properties anchored in pyemv/tlv.py: the translated decoder / encoder and their refinement theorems
@@ -68,6 +92,87 @@ def gen_obligations(pid):
     return out
 
 
+PY2THM = {
+    "tools.xor": ["tools_xor"], "tools.odd_parity": ["tools_odd_parity"], "tools.adjust_key_parity": ["tools_adjust"],
+    "tools.key_check_digits": ["tools_kcv"], "tools.encrypt_tdes_cbc": ["tools_cbc"], "tools.encrypt_tdes_ecb": ["tools_ecb"],
+    "mac.pad_iso9797_1": ["mac_pad1"], "mac.pad_iso9797_2": ["mac_pad2"], "mac.mac_iso9797_3": ["mac_mac3"],
+    "ac.generate_ac": ["ac_generate_ac"], "ac.generate_arpc_1": ["ac_generate_arpc_1"], "ac.generate_arpc_2": ["ac_generate_arpc_2"],
+    "kd.derive_icc_mk_a": ["kd_derive_icc_mk_a"], "kd.derive_icc_mk_b": ["kd_derive_icc_mk_b"], "kd.derive_common_sk": ["kd_derive_common_sk"],
+    "kd.derive_visa_sm_sk": ["kd_derive_visa_sm_sk"], "kd.derive_emv2000_tree_sk": ["kd_tree_sk", "kd_tree_walk", "kd_tree_derive"],
+    "sm.generate_command_mac": ["sm_generate_command_mac"], "sm.encrypt_command_data": ["sm_encrypt_command_data"],
+    "sm.format_vis_pin_block": ["sm_format_vis"], "sm.format_iso9564_2_pin_block": ["sm_format_iso2"], "cvv.generate_cvc3": ["cvv_generate_cvc3"],
+}
+
+
+def build_each(targets):
+    """names of the Lean modules among `targets` that do not build (one combined build; singly only on failure)"""
+    g = sh(["lake", "build"] + targets, cwd=LEAN)
+    if g.returncode == 0:
+        return {}, ""
+    bad = {}
+    for t in targets:
+        r = sh(["lake", "build", t], cwd=LEAN)
+        if r.returncode != 0:
+            errs = [ln for ln in r.stdout.split("\n") if ln.startswith("error:")][:3]
+            bad[t] = " | ".join(errs)[:500]
+    return bad, g.stdout
+
+
+def mod_job(pid, problems):
+    """translated straight-line functions: regenerate, then build the refinement module of every function the
+    property depends on (the anchored ones and their callees) — and of no other"""
+    want = MOD_FUNCS[pid]
+    out = os.path.join(LEAN, "PyemvGen", "ModGen.lean")
+    t = sh([sys.executable, os.path.join(core.HERE, "translate_py.py"), core.REPO, out])
+    fails = {}
+    try:
+        fails = json.load(open(out + ".failures.json"))
+    except Exception:  # noqa: BLE001
+        if t.returncode != 0:
+            problems.append(("ModRefines", "translator (translate_py.py) crashed: " + t.stdout.strip()[-300:]))
+            return
+    refused = {}
+    for pyname, msg in fails.items():
+        for thm in PY2THM.get(pyname, []):
+            refused[thm] = f"{pyname}: {msg}"
+    bad, _ = build_each(["PyemvGen.Mod." + n for n in want])
+    for n in want:
+        if n in refused:
+            problems.append(("ModRefines." + n, f"translator (translate_py.py): unsupported construct in {refused[n]}"))
+        elif ("PyemvGen.Mod." + n) in bad:
+            callee = [d for d in _closure([n])[1:] if d in refused or ("PyemvGen.Mod." + d) in bad]
+            why = (f"it calls {', '.join(callee)}, which is no longer translated / proved" if callee
+                   else "the refinement proof no longer closes: " + bad["PyemvGen.Mod." + n])
+            problems.append(("ModRefines." + n, f"ModRefines.{n}: the definition translated from the current source is no longer proved equal to the model — {why}"))
+
+
+TLV_HALF = {"tlv_decode": "decode", "decode_loop_eq": "decode", "tlv_decode_sim": "decode", "tlv_encode": "encode", "encode_for_eq": "encode"}
+TLV_MODULE = {"decode": "PyemvGen.TlvRefinesDec", "encode": "PyemvGen.TlvRefinesEnc"}
+
+
+def tlv_job(pid, problems):
+    """tlv.py: the decoder half and the encoder half are translated and proved separately; a property is told
+    only about the half it is anchored in"""
+    halves = sorted({TLV_HALF[n] for n in TLV_FUNCS[pid]})
+    out = os.path.join(LEAN, "PyemvGen", "TlvGen.lean")
+    t = sh([sys.executable, os.path.join(core.HERE, "translate_tlv.py"), core.REPO, out])
+    try:
+        fails = json.load(open(out + ".failures.json"))
+    except Exception:  # noqa: BLE001
+        problems.append(("TlvRefines", "translator (translate_tlv.py) crashed: " + t.stdout.strip()[-300:]))
+        return
+    bad, _ = build_each([TLV_MODULE[h] for h in halves])
+    for h in halves:
+        names = [n for n in TLV_FUNCS[pid] if TLV_HALF[n] == h]
+        if h in fails:
+            for n in names:
+                problems.append(("TlvRefines." + n, f"translator (translate_tlv.py): unsupported construct in the {h}r: {fails[h]}"))
+        elif TLV_MODULE[h] in bad:
+            for n in names:
+                problems.append(("TlvRefines." + n, f"TlvRefines.{n}: the {h}r translated from the current source is no longer proved equal "
+                                                    f"to the model: {bad[TLV_MODULE[h]]}"))
+
+
 def lake_build(pid):
     """(ok, log, gen_problems). Serialised by a file lock so that checks started in parallel do not race.
     For the properties anchored in translated functions the Lean definitions are first regenerated from the
@@ -82,11 +187,11 @@ def lake_build(pid):
             return False, r.stdout, problems
         jobs = []
         if pid in MOD_FUNCS:
-            jobs.append(("translate_py.py", "ModGen.lean", "PyemvGen.ModRefines", "ModRefines"))
+            mod_job(pid, problems)
         if pid in CVN_PIDS:
             jobs.append(("translate_cvn.py", "CvnGen.lean", "PyemvGen.CvnRefines", "CvnRefines"))
         if pid in TLV_FUNCS:
-            jobs.append(("translate_tlv.py", "TlvGen.lean", "PyemvGen.TlvRefines", "TlvRefines"))
+            tlv_job(pid, problems)
         for script, out, target, tag in jobs:
             t = sh([sys.executable, os.path.join(core.HERE, script), core.REPO, os.path.join(LEAN, "PyemvGen", out)])
             if t.returncode != 0:
@@ -122,20 +227,25 @@ def obligations(pid, gen=True):
     return reg.get(pid, []) + (gen_obligations(pid) if gen else [])
 
 
+def is_broken(name, broken):
+    return any(("." + b + ".") in name or name.endswith("." + b) for b in broken)
+
+
 def audit(pid, workdir, broken=()):
     """#print axioms for every theorem registered for the property. Returns (names, discharged, problems).
     `broken` lists the generated-refinement modules that did not build (their theorems count as not discharged)."""
     names = obligations(pid, gen=True)
     if not names:
         return [], [], [f"no theorem registered for {pid}"]
-    printable = [n for n in names if not any(("." + b + ".") in n for b in broken)]
+    printable = [n for n in names if not is_broken(n, broken)]
     imports = "import PyemvProps\n"
-    if any(".ModRefines." in n for n in printable):
-        imports += "import PyemvGen.ModRefines\n"
+    for n in printable:
+        if ".ModRefines." in n:
+            imports += "import PyemvGen.Mod." + n.split(".")[-1] + "\n"
     if any(".CvnRefines." in n for n in printable):
         imports += "import PyemvGen.CvnRefines\n"
-    if any(".TlvRefines." in n for n in printable):
-        imports += "import PyemvGen.TlvRefines\n"
+    for h in sorted({TLV_HALF[n.split(".")[-1]] for n in printable if ".TlvRefines." in n}):
+        imports += "import " + TLV_MODULE[h] + "\n"
     path = os.path.join(workdir, f"Audit_{pid}.lean")
     with open(path, "w") as f:
         f.write(imports + "".join(f"#print axioms {n}\n" for n in printable))
@@ -493,7 +603,7 @@ def main():
         if ok:
             broken = [tag for tag, _ in gen_problems]
             names, discharged, probs = audit(pid, work, broken=broken)
-            probs = [p for p in probs if not any(("." + b + ".") in p for b in broken)]
+            probs = [p for p in probs if not any(("." + b + ".") in p or ("." + b + " ") in p or p.endswith("." + b) for b in broken)]
             proof_problems += probs
             if tier == "thorough":
                 with open(os.path.join(LEAN, ".lake", "verif.lock"), "w") as lk:
